@@ -46,6 +46,7 @@ func runC09(c *Config, r *Report) {
 	c09R5(ic, r)
 	c09R6(ic, r)
 	c09R7(ic, r)
+	watcherPreparation(ic, r, "R09.4")
 }
 
 // c09R7: re-synchronisation of the root frame id reachable from watcher goroutines.
@@ -688,6 +689,24 @@ func c09R4(ic *IC, r *Report) {
 					continue
 				}
 				stops, retErr := false, false
+				blocks := ""
+				for _, s := range cl.Body {
+					ast.Inspect(s, func(x ast.Node) bool {
+						switch y := x.(type) {
+						case *ast.UnaryExpr:
+							if y.Op == token.ARROW {
+								blocks = "a channel receive (" + types.ExprString(y) + ")"
+							}
+						case *ast.SelectStmt:
+							blocks = "a select statement"
+						case *ast.CallExpr:
+							if f, ok := calleeOf(ic.Info, y).(*types.Func); ok && f.Pkg() != nil && f.Pkg().Path() == "sync" && (f.Name() == "Wait" || f.Name() == "Lock") {
+								blocks = "sync." + f.Name()
+							}
+						}
+						return true
+					})
+				}
 				for _, s := range cl.Body {
 					ast.Inspect(s, func(x ast.Node) bool {
 						if c, ok := x.(*ast.CallExpr); ok && isCallTo(ic.Info, c, "interp.Interpreter.stop") {
@@ -708,6 +727,8 @@ func c09R4(ic *IC, r *Report) {
 					why = "the ctx.Done() case does not call (*Interpreter).stop"
 				case !retErr:
 					why = "the ctx.Done() case does not return ctx.Err()"
+				case blocks != "":
+					why = "the ctx.Done() case waits on " + blocks + " before returning: when the evaluation goroutine is blocked in compiled code (wg.Wait, mutex, sleep) the call does not return the context's error promptly, possibly never"
 				default:
 					okWatch = true
 				}
